@@ -189,6 +189,12 @@ where
         }
         let mut found = BTreeSet::new();
         while let Some((link, path_pos)) = links.pop() {
+            // Normalize like the import itself does. Files that link to each
+            // other through ../ would otherwise never be recognized as
+            // already loaded and the path would grow without bound.
+            let link: Rc<str> = crate::path::normalize(PathBuf::from(link.as_ref()))
+                .to_string_lossy()
+                .into();
             if found.contains(&link) {
                 continue;
             }
